@@ -161,9 +161,78 @@ fn from_flat(m: &TimeSpaceMoc<u64, u64>) -> Vec<Elem> {
 }
 
 /// C08: streaming union, all forms, both operand orders.
+/// Every element of a space-time MOC is itself a pair of valid MOCs: its time (space) ranges are unions of cells of the
+/// depth the ELEMENT announces, which is not deeper than the depth of the ST-MOC (judged by the model's `valid`).
+type ElemDepths = Vec<(u8, Vec<Range<u64>>, u8, Vec<Range<u64>>)>;
+fn elem_depths(m: &RangeMOC2<u64, Time<u64>, u64, Hpx<u64>>) -> ElemDepths {
+  use moc::moc2d::RangeMOC2ElemIt;
+  use moc::moc::HasMaxDepth;
+  m.into_range_moc2_iter().map(|e| { let (t, s) = e.range_mocs_it(); let (dt, ds) = (t.depth_max(), s.depth_max()); (dt, t.collect(), ds, s.collect()) }).collect()
+}
+fn elem_depth_checks(sink: &mut Sink, d: (u8, u8), elems: &ElemDepths, what: &str) {
+  for (dt, tr, ds, sr) in elems {
+    sink.count("union:element-depth-check");
+    if *dt > d.0 || *ds > d.1 {
+      sink.impl_failures.push(format!("C08 element deeper than its ST-MOC: element depths ({}, {}) in a ({}, {}) ST-MOC: {}", dt, ds, d.0, d.1, what));
+    }
+    sink.emit(&format!("aligned time 64 {} {}", dt, fmt_ranges(tr)), "true", true);
+    sink.emit(&format!("aligned hpx 64 {} {}", ds, fmt_ranges(sr)), "true", true);
+  }
+}
+
+/// The three forms of the union, on operands built by `fa` / `fb`.
+fn union_forms(sink: &mut Sink, fa: &dyn Fn() -> RangeMOC2<u64, Time<u64>, u64, Hpx<u64>>, fb: &dyn Fn() -> RangeMOC2<u64, Time<u64>, u64, Hpx<u64>>, tx: &str, ty: &str, depths: (u8, u8), tp: &str, sp: &str) {
+  let forms: Vec<(&str, Box<dyn Fn() -> RangeMOC2<u64, Time<u64>, u64, Hpx<u64>> + '_>)> = vec![
+    ("or", Box::new(move || fa().or(&fb()))),
+    ("into_or", Box::new(move || fa().into_or(fb()))),
+    ("iter-or", Box::new(move || moc::moc2d::range::op::or::or(fa().into_range_moc2_iter(), fb().into_range_moc2_iter()).into_range_moc2())),
+  ];
+  for (name, f) in forms {
+    sink.count(&format!("form:{}", name));
+    match std::panic::catch_unwind(AssertUnwindSafe(|| { let m = f(); let d = (m.depth_max_1(), m.depth_max_2()); let sub = elem_depths(&m); (d, sub, from_moc2(m)) })) {
+      Err(_) => sink.emit(&format!("st_sem 14 {} {} {} {}", tx, ty, tp, sp), &panic_answer(), true),
+      Ok((d, sub, out)) => {
+        sink.emit(&format!("st_sem 14 {} {} {} {}", tx, ty, tp, sp), &bits_of(&out), true);
+        sink.emit(&format!("st_valid {}", st_txt(&out)), "true", !out.is_empty());
+        elem_depth_checks(sink, d, &sub, &format!("{} | {}", tx, ty));
+        if d != depths {
+          sink.impl_failures.push(format!("C08 depths of the union are {:?}, expected {:?}: {} | {}", d, depths, tx, ty));
+        }
+      }
+    }
+  }
+}
+
 fn c08_pass(sink: &mut Sink, rng: &mut Rng, thorough: bool) {
   let n = if thorough { 30_000 } else { 700 };
   let (tp, sp) = (nats(&grid_t()), nats(&grid_s()));
+  // ---- directed pairs (no RNG draw)
+  {
+    let tc = |c: u64| t0() + c * tunit()..t0() + (c + 1) * tunit();
+    let sm = |mask: u64| ranges_of_mask(mask, NS as u32, sunit());
+    let mut pairs: Vec<(Vec<Elem>, u8, Vec<Elem>, u8)> = Vec::new();
+    let dt = DT_();
+    // a depleted operand element must not be flushed a second time
+    pairs.push((vec![(vec![tc(0)], sm(3)), (vec![tc(2)], sm(4))], dt, vec![(vec![tc(0)], sm(5)), (vec![tc(2)], sm(3))], dt));
+    pairs.push((vec![(vec![tc(0)], sm(3)), (vec![tc(1)], sm(4))], dt, vec![(vec![tc(0)], sm(5)), (vec![tc(1)], sm(3))], dt));
+    // same end, different starts
+    pairs.push((vec![(vec![tc(7)], sm(1))], dt, vec![(vec![t0() + 4 * tunit()..t0() + 8 * tunit()], sm(2))], dt));
+    pairs.push((vec![(vec![tc(3)], sm(1))], dt, vec![(vec![t0() + 1 * tunit()..t0() + 4 * tunit()], sm(3))], dt));
+    if dt >= 1 && t0() % (2 * tunit()) == 0 {
+      // operands of DIFFERENT time depths: `a` is made of cells of depth dt - 1 (two grid cells each)
+      let big = |c: u64| t0() + 2 * c * tunit()..t0() + 2 * (c + 1) * tunit();
+      pairs.push((vec![(vec![big(0)], sm(1))], dt - 1, vec![(vec![tc(0)], sm(2))], dt));
+      pairs.push((vec![(vec![big(0)], sm(1))], dt - 1, vec![(vec![tc(1)], sm(2))], dt));
+      pairs.push((vec![(vec![big(1), big(3)], sm(3))], dt - 1, vec![(vec![tc(2)], sm(2)), (vec![tc(5)], sm(4)), (vec![tc(7)], sm(3))], dt));
+      pairs.push((vec![(vec![big(0)], sm(1)), (vec![big(2)], sm(8))], dt - 1, vec![(vec![tc(3)], sm(2)), (vec![tc(4)], sm(8))], dt));
+    }
+    for (a, da, b, db) in pairs {
+      let (ta, tb) = (st_txt(&a), st_txt(&b));
+      sink.count("pair:directed");
+      union_forms(sink, &|| to_moc2_at(&a, da, DS), &|| to_moc2_at(&b, db, DS), &ta, &tb, (da.max(db), DS), &tp, &sp);
+      union_forms(sink, &|| to_moc2_at(&b, db, DS), &|| to_moc2_at(&a, da, DS), &tb, &ta, (da.max(db), DS), &tp, &sp);
+    }
+  }
   for i in 0..n {
     let mut a = random_st(rng);
     let mut b = match i % 8 { 0 => a.clone(), 1 => vec![], 2 | 3 | 4 => related_st(rng, &a), _ => random_st(rng) };
@@ -286,12 +355,25 @@ fn c09_pass(sink: &mut Sink, rng: &mut Rng, thorough: bool) {
     // at different positions, first observation not the earliest, duplicates
     let mut obs: Vec<(Range<u64>, u64)> = (0..nobs).map(|_| { let a = rng.below(NT); let l = 1 + rng.below(3); (a..(a + l).min(NT), rng.below(NS)) }).collect();
     if rng.chance(1, 3) && !obs.is_empty() { let o = obs[0].clone(); obs.push(o); }
-    let otxt = if obs.is_empty() { "_".to_string() } else { obs.iter().map(|(t, s)| format!("{}-{}@{}-{}", t0() + t.start * tunit(), t0() + t.end * tunit(), s * sunit(), (s + 1) * sunit())).collect::<Vec<_>>().join(";") };
+    // observations in absolute microseconds; 1 list in 3 also holds an EMPTY time range `[t, t)` (an instantaneous
+    // observation written as a range: it covers no instant, hence no pair) — on a cell boundary, and inside a cell
+    // when the time depth is not the deepest one (no RNG draw: the stream of the other cases is unchanged)
+    let mut aobs: Vec<(Range<u64>, u64)> = obs.iter().map(|(t, s)| (t0() + t.start * tunit()..t0() + t.end * tunit(), *s)).collect();
+    if nobs % 3 == 2 {
+      let (t, s) = (t0() + ((obs[0].0.start + 5) % NT) * tunit(), (obs[0].1 + 1) % NS);
+      aobs.insert(1, (t..t, s));
+      sink.count("obs:empty-time-range-aligned");
+    } else if nobs % 3 == 1 && tunit() > 1 {
+      let (t, s) = (t0() + ((obs[0].0.start + 5) % NT) * tunit() + 1, (obs[0].1 + 1) % NS);
+      aobs.insert(0, (t..t, s));
+      sink.count("obs:empty-time-range-unaligned");
+    }
+    let otxt = if aobs.is_empty() { "_".to_string() } else { aobs.iter().map(|(t, s)| format!("{}-{}@{}-{}", t.start, t.end, s * sunit(), (s + 1) * sunit())).collect::<Vec<_>>().join(";") };
     let op = format!("st_obs {} {} {}", otxt, tp, sp);
     for cap in [1usize, 2, 3, 100] {
       // (a) streaming builder on (time range, cell)
       let res = std::panic::catch_unwind(AssertUnwindSafe(|| {
-        from_moc2(RangeMOC2::<u64, Time<u64>, u64, Hpx<u64>>::from_ranges_and_fixed_depth_cells(DT_(), DS, obs.iter().map(|(t, s)| (t0() + t.start * tunit()..t0() + t.end * tunit(), *s)), Some(cap)))
+        from_moc2(RangeMOC2::<u64, Time<u64>, u64, Hpx<u64>>::from_ranges_and_fixed_depth_cells(DT_(), DS, aobs.iter().map(|(t, s)| (t.clone(), *s)), Some(cap)))
       }));
       sink.count("path:ranges-cells-builder");
       match res { Err(_) => sink.emit(&op, &panic_answer(), true), Ok(out) => { sink.emit(&op, &bits_of(&out), nobs > 1); } }
@@ -305,11 +387,33 @@ fn c09_pass(sink: &mut Sink, rng: &mut Rng, thorough: bool) {
       sink.count("path:cells-builder");
       let opu = format!("st_obs {} {} {}", utxt, tp, sp);
       match res { Err(_) => sink.emit(&opu, &panic_answer(), true), Ok(out) => { sink.emit(&opu, &bits_of(&out), nobs > 1); } }
+      // (e) (microseconds, lon, lat) observations: an instant inside the time cell, the centre of the space cell
+      if cap == 1 || cap == 100 {
+        let coos: Vec<(u64, f64, f64)> = unit_obs.iter().map(|(t, s)| { let (lon, lat) = cdshealpix::nested::center(DS, *s); (t0() + t * tunit() + tunit() / 3, lon, lat) }).collect();
+        let res = std::panic::catch_unwind(AssertUnwindSafe(|| {
+          from_moc2(RangeMOC2::<u64, Time<u64>, u64, Hpx<u64>>::from_time_and_coos(DT_(), DS, coos.iter().cloned(), Some(cap)))
+        }));
+        sink.count("path:time-and-coos-builder");
+        match res { Err(_) => sink.emit(&opu, &panic_answer(), true), Ok(out) => { sink.emit(&opu, &bits_of(&out), nobs > 1); } }
+      }
     }
     // (c) the range-2D path used by the store and MOCPy
-    let times: Vec<Range<u64>> = obs.iter().map(|(t, _)| t0() + t.start * tunit()..t0() + t.end * tunit()).collect();
-    let cov: Vec<moc::elemset::range::HpxRanges<u64>> = obs.iter().map(|(_, s)| Ranges::new_unchecked(vec![s * sunit()..(s + 1) * sunit()]).into()).collect();
+    let mut times: Vec<Range<u64>> = aobs.iter().map(|(t, _)| t.clone()).collect();
+    let mut cov: Vec<moc::elemset::range::HpxRanges<u64>> = aobs.iter().map(|(_, s)| Ranges::new_unchecked(vec![s * sunit()..(s + 1) * sunit()]).into()).collect();
+    let ptimes = times.clone();
+    // 1 list in 3: an observation whose space coverage is EMPTY (it covers no pair), second in the list
+    if nobs % 3 == 0 && nobs > 0 {
+      let t = (obs[0].0.start + 2) % NT;
+      times.insert(1, t0() + t * tunit()..t0() + (t + 1) * tunit());
+      cov.insert(1, Ranges::new_unchecked(vec![]).into());
+      sink.count("obs:empty-coverage");
+    }
+    let all_entries: Vec<Elem> = times.iter().zip(cov.iter()).map(|(t, c)| (vec![t.clone()], to_u64_ranges(&c.0 .0))).collect();
     if !obs.is_empty() {
+      // (c') the (time range, cell) variant of the range-2D path
+      let res = std::panic::catch_unwind(AssertUnwindSafe(|| TimeSpaceMoc::<u64, u64>::create_from_time_ranges_positions(ptimes.clone(), aobs.iter().map(|(_, s)| *s).collect(), DT_(), DS)));
+      sink.count("path:ranges2d-positions");
+      match res { Err(_) => sink.emit(&op, &panic_answer(), true), Ok(o) => sink.emit(&op, &bits_of(&from_flat(&o)), nobs > 1) }
       let res = std::panic::catch_unwind(AssertUnwindSafe(|| TimeSpaceMoc::<u64, u64>::create_from_time_ranges_spatial_coverage(times.clone(), cov.clone(), DT_())));
       sink.count("path:ranges2d");
       match res {
@@ -318,8 +422,11 @@ fn c09_pass(sink: &mut Sink, rng: &mut Rng, thorough: bool) {
           let out = from_flat(&o);
           sink.emit(&op, &bits_of(&out), nobs > 1);
           // the exact entries against the transliterated `make_consistent` (`Consistent2D.makeConsistent`)
-          let entries: Vec<Elem> = times.iter().zip(obs.iter()).map(|(t, (_, s))| (vec![t.clone()], vec![s * sunit()..(s + 1) * sunit()])).collect();
+          let entries: Vec<Elem> = aobs.iter().filter(|(t, _)| t.start < t.end).map(|(t, s)| (vec![t.clone()], vec![s * sunit()..(s + 1) * sunit()])).collect();
           sink.emit(&format!("st_mkc {}", st_txt(&entries)), &st_txt(&out), nobs > 1);
+          // ... and against the whole construction on ALL the observations (empty time ranges / coverages included)
+          sink.emit(&format!("st_fromobs {}", st_txt(&all_entries)), &st_txt(&out), nobs > 1);
+          if !out.is_empty() { sink.emit(&format!("st_valid {}", st_txt(&out)), "true", true); }
         }
       }
       // (d) the same, converted to a RangeMOC2 by `time_space_iter` (what the store and the CLI do)
